@@ -1,5 +1,7 @@
 package datamodel
 
+import "math"
+
 // DeepEqual reports whether x and y are "deeply equal" as IPLD nodes.
 // This is similar to reflect.DeepEqual, but based around the Node interface.
 //
@@ -49,6 +51,26 @@ func DeepEqual(x, y Node) bool {
 		}
 		return xv == yv
 	case Kind_Int:
+		// Nodes with the UintNode extension may hold values above MaxInt64,
+		// which AsInt cannot return; compare those through AsUint.
+		if xu, ok := x.(UintNode); ok {
+			if xv, err := xu.AsUint(); err == nil && xv > math.MaxInt64 {
+				yu, ok := y.(UintNode)
+				if !ok {
+					return false
+				}
+				yv, err := yu.AsUint()
+				if err != nil {
+					panic(err)
+				}
+				return xv == yv
+			}
+		}
+		if yu, ok := y.(UintNode); ok {
+			if yv, err := yu.AsUint(); err == nil && yv > math.MaxInt64 {
+				return false
+			}
+		}
 		xv, err := x.AsInt()
 		if err != nil {
 			panic(err)
